@@ -76,7 +76,9 @@ ParamOps    == {"param", "posonly", "kwonly", "vararg", "kwarg"}
 StmtBindOps == {"bind", "import", "importfrom", "for", "with", "with2", "except",
                 "aug", "del", "matchcap", "walrus", "annbind"}
 DeclOps     == {"global", "nonlocal"}
-Decoys      == {"cmtdecoy", "strdecoy"}       \* the identifier inside a comment / a string
+\* the identifier inside a comment / a string; "cmtdedent": a comment-only line inside the
+\* last (compound) statement of a def / class, indented less than the block (layout only)
+Decoys      == {"cmtdecoy", "strdecoy", "cmtdedent"}
 \* Multi-module part.  Scope 0 is the top level of the second module `lib`:
 \*   libdef    `n = ..` at the top level of lib
 \*   libuse    a reference to n at the top level of lib
@@ -106,7 +108,7 @@ AttrOps == {"instattr", "helperattr"}
 OpsOf(kind) ==
   CASE kind = "module"   -> StmtBindOps \cup {"use", "fuse"} \cup Decoys \cup LibRefOps \cup SibRefOps
     [] kind = "function" -> StmtBindOps \cup ParamOps \cup DeclOps \cup LibRefOps \cup SibRefOps
-                              \cup {"use", "fuse", "defuse", "kwcall"} \cup Decoys
+                              \cup {"use", "fuse", "defuse", "kwcall", "kwrecall", "resattr"} \cup Decoys
     [] kind = "class"    -> StmtBindOps \cup DeclOps \cup {"use", "fuse"} \cup Decoys \cup AttrOps
     [] kind = "comp"     -> {"for", "use", "walrus", "iteruse"}
     [] kind = "lambda"   -> ParamOps \cup {"use", "walrus", "defuse"}
@@ -148,7 +150,13 @@ BindsIn(P, s, n) ==
                              /\ IsComp(P, e[1])
                              /\ Hoist(P, e[1]) = s
   \/ \E i \in 2..NS(P) : Parent(P, i) = s /\ SName(P, i) = n      \* def n / class n
-  \/ /\ n = P.libname /\ P.lib # "package"       \* `import lib` binds lib's name (`import pk.lib` binds pk)
+  \* layout "stars": the first module starts with `from lib import *` and then
+  \* `from lib2 import *`: every top-level name of the two modules is bound in it
+  \* (lib2's, the later import, wins when both define the name)
+  \/ /\ s = 1 /\ P.lib = "stars"
+     /\ (<<0, "libdef", n>> \in P.ev \/ <<0, "sibdef", n>> \in P.ev)
+  \/ /\ s = 1 /\ P.lib = "starmod" /\ n = P.libname     \* the star import binds lib's name
+  \/ /\ n = P.libname /\ P.lib \notin {"package", "starmod"}    \* `import lib` binds lib's name (`import pk.lib` binds pk)
      /\ \E e \in P.ev : e[1] = s /\ e[2] = "modattr"
 
 Local(P, s, n) ==
@@ -205,6 +213,10 @@ BScope(P, e) ==
     [] op \in {"iteruse", "defuse"}    -> Resolve(P, Parent(P, s), n)
     [] op = "walrus" /\ IsComp(P, s)   -> Resolve(P, Hoist(P, s), n)
     [] op = "kwcall"                   -> s
+    \* the def is called twice: `r = f(n=..)`, then `r.n` (resattr: an attribute of whatever
+    \* the call returns - not a name of the program), then `f(n=..)` again (kwrecall)
+    [] op = "kwrecall"                 -> s
+    [] op = "resattr"                  -> 0
     [] op \in AttrOps                  -> IF Local(P, s, n) THEN s ELSE 0
     [] OTHER                           -> Resolve(P, s, n)
 
@@ -243,7 +255,9 @@ Dyn(P, n) == \E e \in AllEv(P) : e[3] = n /\ DynRef(P, e)
 \* lib's n is: its tokens in lib, the attribute references, the imported-name
 \* tokens, and the whole class of every alias <<s, n>>.
 IsLibTok(e) == e[2] \in LibOps \cup LibRefOps
-AliasScopes(P, n) == { s \in ScopeIds(P) : Has(P, s, "fromlib", n) }
+StarLib(P, n) == P.lib = "stars" /\ <<0, "libdef", n>> \in P.ev /\ <<0, "sibdef", n>> \notin P.ev
+StarSib(P, n) == P.lib = "stars" /\ <<0, "sibdef", n>> \in P.ev
+AliasScopes(P, n) == { s \in ScopeIds(P) : Has(P, s, "fromlib", n) \/ (s = 1 /\ StarLib(P, n)) }
 InLib(P, e) ==
   /\ e[2] \notin Decoys
   /\ \/ IsLibTok(e)
@@ -251,7 +265,13 @@ InLib(P, e) ==
 LibOcc(P, n) == { e \in AllEv(P) : e[3] = n /\ InLib(P, e) }
 LibDefined(P, n) == <<0, "libdef", n>> \in P.ev
 \* the sibling's name n: one class of its own, never merged with lib's n
-SibOcc(P, n) == { e \in AllEv(P) : e[3] = n /\ IsSibTok(e) }
+\* (layout "stars": lib2 plays the sibling's part; the first module's own tokens of a name
+\*  that lib2 provides belong to lib2's class)
+InSib(P, e) ==
+  /\ e[2] \notin Decoys
+  /\ \/ IsSibTok(e)
+     \/ (~IsLibTok(e) /\ StarSib(P, e[3]) /\ BScope(P, e) = 1)
+SibOcc(P, n) == { e \in AllEv(P) : e[3] = n /\ InSib(P, e) }
 SibDefined(P, n) == <<0, "sibdef", n>> \in P.ev
 
 Determined(P, e) ==
@@ -262,11 +282,11 @@ Determined(P, e) ==
      ELSE BScope(P, e) # 0
 
 \* the binding partition: all tokens of binding <<r, n>>
-Occ(P, r, n) == { e \in AllEv(P) : e[3] = n /\ e[2] \notin Decoys /\ ~IsLibTok(e) /\ ~IsSibTok(e)
+Occ(P, r, n) == { e \in AllEv(P) : e[3] = n /\ e[2] \notin Decoys /\ ~IsLibTok(e) /\ ~InSib(P, e)
                                    /\ BScope(P, e) = r }
 \* the class of a token: lib's name, or the binding of its scope
 ClassOf(P, e) == IF InLib(P, e) THEN LibOcc(P, e[3])
-                 ELSE IF IsSibTok(e) THEN SibOcc(P, e[3])
+                 ELSE IF InSib(P, e) THEN SibOcc(P, e[3])
                  ELSE Occ(P, BScope(P, e), e[3])
 
 \* the name of def s is bound exactly once (by that def): a call through the
@@ -298,13 +318,27 @@ WellFormed(P) ==
             \* annotated name without value: not with global/nonlocal
             \* attribute references are written for unnamed classes only (`C2().n`)
             /\ (\E op \in AttrOps : Has(P, s, op, n)) => (Kind(P, s) = "class" /\ SName(P, s) = NoName)
+            /\ Has(P, s, "resattr", n) => Has(P, s, "kwcall", n)
+            /\ Has(P, s, "kwrecall", n) => (Has(P, s, "kwcall", n) /\ Has(P, s, "resattr", n))
+            \* the second call repeats every keyword of the first
+            /\ (Has(P, s, "kwcall", n) /\ \E m \in AllNames : Has(P, s, "kwrecall", m)) => Has(P, s, "kwrecall", n)
+            /\ (Has(P, s, "resattr", n) \/ Has(P, s, "kwrecall", n)) => SName(P, s) = NoName
             /\ Has(P, s, "annbind", n) => (~GlobalDecl(P, s, n) /\ ~NonlocalDecl(P, s, n))
             /\ (Has(P, s, "walrus", n) /\ IsComp(P, s)) =>
                  /\ Kind(P, Hoist(P, s)) # "class"
                  /\ \A c \in CompChain(P, s) : ~Has(P, c, "for", n)
   \* multi-module part
   /\ (P.lib = "none") => \A e \in P.ev : ~(e[2] \in LibOps \cup LibRefOps)
-  /\ (P.lib # "shadowed") => \A e \in P.ev : ~IsSibTok(<<e[1], e[2], e[3], 0>>)
+  /\ (P.lib \notin {"shadowed", "stars"}) => \A e \in P.ev : ~IsSibTok(<<e[1], e[2], e[3], 0>>)
+  \* layout "stars": only star imports reach the two modules, and a name they provide is not
+  \* bound or redirected by anything else in the first module
+  /\ (P.lib = "stars") =>
+       /\ \A e \in P.ev : e[2] \notin LibRefOps \cup SibRefOps
+       /\ \A n \in AllNames : (<<0, "libdef", n>> \in P.ev \/ <<0, "sibdef", n>> \in P.ev) =>
+            /\ \A e \in P.ev : (e[1] = 1 /\ e[3] = n) => e[2] \notin BindingOps
+            /\ \A e \in P.ev : e[3] = n => e[2] \notin DeclOps
+            /\ \A i \in 2..NS(P) : ~(Parent(P, i) = 1 /\ SName(P, i) = n)
+            /\ \A d \in 2..NS(P) : ~(IsComp(P, d) /\ Hoist(P, d) = 1 /\ Has(P, d, "walrus", n))
   \* a second module named like an identifier of the program: in the first module that
   \* identifier occurs only in references to lib (`import m` then binds m to the module;
   \* mixing it with other bindings of m is outside the fragment)
@@ -376,9 +410,15 @@ AddEvent(s, op, n) ==
   /\ s \in 1..Len(scopes)
   /\ op \in Ops \cap OpsOf(scopes[s].kind)
   /\ scopes[s].one => op \in {"bind", "param"}
+  /\ (op = "cmtdedent") => s # 1
+  /\ (op \in {"kwrecall", "resattr"}) =>
+        (scopes[s].role = "plain" /\ scopes[s].deco # "property" /\ ~scopes[s].one)
   /\ (scopes[s].role = "new") => op \notin ParamOps \cup {"kwcall", "defuse"}
   /\ (op \in SibRefOps) => lib = "shadowed"
-  /\ (op \in LibRefOps) => lib # "none"
+  /\ (op \in LibRefOps) => lib \notin {"none", "stars"}
+  \* layout "starmod": a third module `st` does `import lib`, the first module starts with
+  \* `from st import *` and reaches lib only as `lib.n` (the module object re-exported by the star)
+  /\ (lib = "starmod") => op \notin (LibRefOps \ {"modattr"})
   /\ n \in Names
   /\ <<s, op, n>> \notin ev
   /\ ev' = ev \cup {<<s, op, n>>}
@@ -390,7 +430,7 @@ AddLibEvent(op, n) ==
   /\ lib # "none"
   /\ Cardinality(ev) < MaxEv
   /\ op \in Ops \cap (LibOps \cup SibOps)
-  /\ (op \in SibOps) => lib = "shadowed"
+  /\ (op \in SibOps) => lib \in {"shadowed", "stars"}
   /\ n \in Names
   /\ <<0, op, n>> \notin ev
   /\ ev' = ev \cup {<<0, op, n>>}
@@ -410,6 +450,7 @@ Rename(r, n, new) ==
   /\ Occ(Prog, r, n) # {}
   /\ ~Dyn(Prog, n)                          \* statically determined bindings only
   /\ r \notin AliasScopes(Prog, n)          \* an alias is renamed with lib's name
+  /\ ~(r = 1 /\ StarSib(Prog, n))
   /\ LET occ == Occ(Prog, r, n) IN
        /\ ev' = { IF <<e[1], e[2], e[3], 0>> \in occ THEN <<e[1], e[2], new>> ELSE e : e \in ev }
        /\ scopes' = [i \in 1..Len(scopes) |->
@@ -558,7 +599,7 @@ OccPartition ==
     LET cls == { r \in ScopeIds(P) : e \in Occ(P, r, e[3]) /\ r \notin AliasScopes(P, e[3]) }
         inlib == e \in LibOcc(P, e[3]) IN
       IF e[2] \in Decoys THEN cls = {} /\ ~inlib
-      ELSE IF IsSibTok(e) THEN cls = {} /\ ~inlib /\ e \in SibOcc(P, e[3])
+      ELSE IF InSib(P, e) THEN ~inlib /\ e \in SibOcc(P, e[3])
       ELSE IF InLib(P, e) THEN inlib /\ cls = {} /\ e \notin SibOcc(P, e[3])
       ELSE IF BScope(P, e) # 0 THEN cls = {BScope(P, e)} /\ ~inlib
       ELSE cls = {} /\ ~inlib
@@ -600,7 +641,7 @@ AlphaEq ==
                  /\ f \in AllEv(Q)
                  /\ BScope(Q, f) = BScope(P, e)
                  /\ InLib(Q, f) = InLib(P, e)
-                 /\ IsSibTok(f) = IsSibTok(e)
+                 /\ InSib(Q, f) = InSib(P, e)
           /\ Cardinality(AllEv(Q)) = Cardinality(AllEv(P))
           /\ Q.lib = P.lib
           /\ Q.libname = (IF ren'.kind = "module" THEN new ELSE P.libname)
